@@ -562,6 +562,8 @@ static int restore_interior_string (char **val, svalue_t * sv) {
               {
                 while ((c = *cp++) != '"')
                   {
+                    if (c == '\0')
+                      return ROB_STRING_ERROR; /* unterminated string */
                     if (c == '\\')
                       {
                         if (!(*newp++ = *cp++))
@@ -1201,6 +1203,8 @@ int restore_string (char *val, svalue_t * sv) {
               {
                 while ((c = *cp++) != '"')
                   {
+                    if (c == '\0')
+                      return ROB_STRING_ERROR; /* unterminated string */
                     if (c == '\\')
                       {
                         if (!(*newp++ = *cp++))
